@@ -112,6 +112,18 @@ type knownFinding struct {
 	What     string   `json:"what"`
 }
 
+// blockingUnsupported selects, from simgen's list of constructs it does not control, those
+// on which a goroutine can block.
+func blockingUnsupported(u []string) []string {
+	var out []string
+	for _, x := range u {
+		if strings.Contains(x, "channel") || strings.Contains(x, "select") || strings.Contains(x, "sync.Cond") || strings.Contains(x, "sync.NewCond") {
+			out = append(out, x)
+		}
+	}
+	return out
+}
+
 func die(code int, a ...any) {
 	fmt.Fprintln(os.Stderr, append([]any{"check:"}, a...)...)
 	os.Exit(code)
@@ -805,8 +817,11 @@ func main() {
 		fpath := filepath.Join(scratch, "fail-"+name)
 		os.WriteFile(fpath, raw, 0o644)
 		if isHang {
-			if !cfg.HangIsVerdict {
-				fmt.Printf("watchdog: an evaluation of lane %q did not finish (termination is not part of %s): harness trouble\n", fh.Variant, id)
+			if blocking := blockingUnsupported(sites.Unsupported); len(blocking) > 0 {
+				// the tree blocks on something the simulator does not schedule (a channel, a condition
+				// variable): a task that blocks there never hands the baton back, which looks like a
+				// hang of the code under test but is a limit of the simulator
+				fmt.Printf("watchdog: an evaluation of lane %q did not finish, but the tree uses blocking constructs the simulator does not control (%s ...): cannot decide termination\n", fh.Variant, blocking[0])
 				inconclusive++
 				return
 			}
@@ -826,6 +841,11 @@ func main() {
 			case <-time.After(90 * time.Second):
 				cmd.Process.Kill()
 				<-done
+			}
+			if !cfg.HangIsVerdict {
+				fmt.Printf("watchdog: an evaluation of lane %q does not finish, also when re-run alone (termination is not part of %s): no verdict\n", fh.Variant, id)
+				inconclusive++
+				return
 			}
 			os.WriteFile(final, raw, 0o644)
 			report(&replayHead{Prop: id, Oracle: fh.V.Oracle, Class: fh.V.Class, Message: fh.V.Message + " (confirmed when re-run alone in a fresh process)"}, final)
